@@ -10,7 +10,7 @@ CID = "C13"
 def check(run, replay=None):
     tier, seed = run.tier, run.seed
     rng = random.Random(seed * 7919 + 13)
-    C.standard_coq_phase(run, CID)
+    C.standard_coq_phase(run, CID, gens=("jacobian",))
     ok, msg = C.ensure_ocaml()
     if not ok:
         run.finding("build:ocaml", "broken-obligation", msg, {})
